@@ -17,9 +17,12 @@ PROP = dict(
     rule="ops: the real CreateSpork/ActivateSpork methods (ValidateSendBlock and ReceiveBlock) on real contract storage with generated spork sets, "
          "senders (spork key, community key inside/outside/at the edges of its window, other key), heights, amounts, malformed data; the real GetEmbeddedMethod for all 8 "
          "combinations of the three activity bits x every embedded contract (+ unknown contract, + user address) x every ABI selector (+ foreign, random, short); "
-         "GotAllActiveSporksImplemented on generated spork sets / implemented sets. "
-         "node: real node, 3-5 sporks created at random heights, roles (accelerator/htlc/bridge/none) assigned at random, activated in random order (incl. twice, wrong key, unknown id); "
-         "at every height (so just below / at / above each enforcement height) and on historical stores: IsSporkActive, GetEmbeddedMethod on the real context and full ApplyBlock of gated sends; HTLC creates that execute or refund; a follower node fed by InsertChain in random batches compared at every height; "
+         "GotAllActiveSporksImplemented on generated spork sets / implemented sets; "
+         "the real momentum store (IsSporkActive, GetAllDefinedSporks) over the state the real genesis code builds from a GenesisConfig.SporkConfig with 0-5 sporks (created only / activated with enforcement height 0, 1, 2, .. SporkMinHeightDelay+3, < 45, far future), "
+         "viewed at every height 1..SporkMinHeightDelay+3 and around each enforcement height, with GetEmbeddedMethod on a context over that store. "
+         "node: real node whose genesis configuration has no SporkConfig / an empty one / 1-3 sporks in every state (created only, activated with enforcement heights 0, 1, 2, .. around SporkMinHeightDelay, later, far future; some of them playing the implemented sporks from momentum 1 on, some activated again by transaction), "
+         "one history per run with the three implemented sporks shipped activated by the genesis at enforcement heights 0..SporkMinHeightDelay+2 in nesting order; 3-5 sporks created at random heights, roles (accelerator/htlc/bridge/none) assigned at random, activated in random order (incl. twice, wrong key, unknown id); "
+         "at every height (so just below / at / above each enforcement height) and on historical stores: IsSporkActive, GetEmbeddedMethod on the real context and full ApplyBlock of gated sends; HTLC creates that execute or refund; a follower node (same genesis configuration) fed by InsertChain in random batches compared at every height and checked against the statement itself (IsSporkActive, lookup, full send) at every early height and around every enforcement height; "
          "halt: child processes with an unknown activated spork (must exit 2 at the enforcement height and again on restart) and a control. A case is distinct by (function, input)",
     explanation="Theorems: a spork is active for a block iff the acknowledged store (height > 1) holds an activated entry with enforcement <= its height, and stays active at later momentums; "
                 "the method table is a function of three activity bits of the acknowledged store, so send-time validation and receive-time execution agree and an accepted send is never refunded for a missing method later; "
